@@ -260,6 +260,14 @@ def run(ctx, tier):
     I17.merge_ifs = False
     rules_c17.point_rules(ctx, I17)
     rules_c17.ctor_rules(ctx, I17)
+    # the words of a command are read the way the firmware reads them (number language, tokeniser progress, word order):
+    # a word the parser drops is a move the tracking misses
+    from . import rules_c19
+    ctx.rule('C19.R1', 'C19: every RS274 decimal is read as one value and nothing else is', floor=2)
+    ctx.rule('C19.R2', 'C19: the word tokeniser cannot stop early', floor=1)
+    ctx.rule('C19.R3', 'C19: parameterItems yields (upper-cased letter, float | None) in source order', floor=4)
+    rules_c19.language_rules(ctx)
+    rules_c19.items_rules(ctx, rules_c19.parser_interp(ctx.model, unroll=2))
     ctx.assume('region geometry and unit conversion are decided by C17 / C08; here the outcome of containsPoint is a '
                'free boolean per (region, point)')
     ctx.assume('non-motion codes that physically move the tool (G28 inside an episode) are outside this check')
